@@ -189,6 +189,9 @@ class Capture:
         self.modules = []
         self.called_from = {}
         self.used = None       # return value of assign_registers
+        self.called_from = {}
+        self.sorted_scopes = []
+        self.mapping = {}
         self.error = None
 
 
@@ -231,12 +234,38 @@ def compile_captured(src, opts: dict):
                                        "tmp": bool(sym._is_intermediate)}))
         cap.scopes = sorted(data.functions.keys())
         cap.modules = sorted(data.modules.keys())
+        used_names = set()
+        for line in code:
+            if line.output is not None and line.output != "":
+                used_names.add(id(line.output))
+            for inp in line.inputs:
+                if isinstance(inp.value, IC10Register):
+                    used_names.add(id(inp.value))
+        for sym, d in syms:
+            # `symbol in used_symbols` (dataclass equality) in the real code; identity or equal fields here
+            d["used"] = id(sym) in used_names or any(sym == l.output for l in code if l.output is not None and l.output != "") \
+                or any(isinstance(i.value, IC10Register) and i.value == sym for l in code for i in l.inputs)
+        import sys as _sys
+        grabbed = {}
+
+        def prof(frame, event, arg):
+            if event == "return" and frame.f_code is getattr(orig, "__code__", None):
+                loc = frame.f_locals
+                grabbed["called_from"] = {k: sorted(v) for k, v in loc.get("called_from", {}).items()}
+                grabbed["sorted_scopes"] = list(loc.get("sorted_scopes", []))
+                grabbed["mapping"] = dict(loc.get("mapping", {}))
+        old_prof = _sys.getprofile()
+        _sys.setprofile(prof)
         try:
             cap.used = orig(data, code)
         except Exception as e:
             cap.error = f"{type(e).__name__}: {e}"
             raise
         finally:
+            _sys.setprofile(old_prof)
+            cap.called_from = grabbed.get("called_from", {})
+            cap.sorted_scopes = grabbed.get("sorted_scopes", [])
+            cap.mapping = grabbed.get("mapping", {})
             for sym, d in syms:
                 d["phys"] = str(sym.code_expr)
                 d["color"] = sym._color
@@ -263,6 +292,8 @@ def profile(kind: str):
         return P(max_stmts=6, functions=False)
     if kind == "funcs":
         return P(max_stmts=5, functions=True)
+    if kind == "deep":
+        return P(max_stmts=3, functions=True, max_funcs=4, call_heavy=True, loops=False, for_list=False, index_lists=False, max_depth=1, max_globals=3)
     if kind == "loopctl":
         return P(max_stmts=5, functions=False, loopctl_heavy=True, index_lists=False, max_depth=1)
     if kind == "calls":
